@@ -27,6 +27,9 @@ def run(ctx):
     tot = rp["total"]
     if not nfind and tot["diverged"]:
         div = [m for m in rp["mismatches"] if m.get("class") == "diverged"]
+        import os
+        os.makedirs(os.path.join(vf.VERIF, "out", "logs"), exist_ok=True)
+        vf.write_json(os.path.join(vf.VERIF, "out", "logs", "%s-divergences.json" % ctx.pid), div[:20])
         raise vf.Infra("the code no longer follows Control.tla (%d replayed paths differ only in identifiers / table "
                        "contents, e.g. step %s fields %s) although no caller received a wrong or no answer: "
                        "update the specification" % (tot["diverged"], div[0].get("a"), div[0].get("fields")))
